@@ -13,15 +13,25 @@ from pyvc.api import *
 from props.prelude import *
 from props.httpstream import *
 
-CLAIM = "proof"
+CLAIM = "other"
+EXPLANATION = ("T1 proves, for every input of each event handler, the complete functional contract of HttpStream.check_body_size (abort before "
+               "stream; early/late; request/response), the buffering invariant len(buf) <= limit after every *Data event (hence limit + one chunk "
+               "at any time), exact in-order emission of SendHttp(*Data) for streamed bodies incl. addon transformations, and store_streamed_bodies; "
+               "parse_size is proved against the size grammar. What the peer finally receives on the wire is the composition with the HTTP/1 "
+               "writers (C01) and h11, which is only checked bounded here (T2: sizes around the thresholds x all chunkings x CL/chunked x both "
+               "directions x option combinations x addon stream callables) - that composition has one recorded defect (KF-C07-1).")
 ASSUMPTIONS = [
     "body_size_limit / stream_large_bodies are None or strings accepted by parse_size with a non-negative value (Proxyserver.configure rejects "
     "anything parse_size rejects; negative sizes such as '-1' are accepted there but are outside this contract); inside the HttpStream "
     "contracts parse_size is replaced by its summary (string -> int), parse_size itself has its own contract",
     "int(s) for a non-digit string (sign, underscores, surrounding whitespace, non-ASCII digits) is an uninterpreted partial function (CPython's "
     "grammar); parse_size is proved exact for plain ASCII-digit strings with/without unit and total (raises only ValueError)",
+    "CPython fact: over the alphabet of ASCII letters, digits and '.,:/' int(x) succeeds iff x is a non-empty digit string (the exact "
+    "grammar contract parse_size.grammar is stated over that alphabet; parse_size.total covers all strings)",
     "functools.lru_cache on parse_size is transparent",
     "expected_http_body_size (C01's contract) is summarised: it returns None, an arbitrary int, or raises ValueError",
+    "buffering states are entered only after the early check_body_size on the head passed; addons do not change the framing headers between "
+    "the headers hook and the first body chunk (otherwise an empty first chunk re-runs the early check on the edited head)",
     "Layer.handle_event on a non-paused layer runs _handle_event(event) and passes its commands upward (C04's contract); used for the "
     "re-entrant self.handle_event(...) in check_body_size",
     "an addon's stream callable is an arbitrary function returning bytes or a list of at most 3 chunks with arbitrary contents (lists of any "
@@ -32,6 +42,7 @@ ASSUMPTIONS = [
 
 PS = "mitmproxy.utils.human:parse_size"
 EBS = "mitmproxy.net.http.http1.read:expected_http_body_size"
+EBS_AT_USE = "mitmproxy.proxy.layers.http:expected_http_body_size"
 UNITS = {"b": 1024 ** 0, "k": 1024 ** 1, "m": 1024 ** 2, "g": 1024 ** 3, "t": 1024 ** 4}
 
 
@@ -66,8 +77,12 @@ def _int_ok(vc, s):
     return Or(_digits(vc, s), SBool(lib.uf("int_parsable_nondigit", z3.StringSort(), z3.BoolSort())(s.t)))
 
 
-@scenario("parse_size", functions=[PS])
-def s_parse_size(vc):
+ALNUM = "0123456789abcdefghijklmnopqrstuvwxyzABCDEFGHIJKLMNOPQRSTUVWXYZ.,:/"
+
+
+@scenario("parse_size.total", functions=[PS])
+def s_parse_size_total(vc):
+    """every str (any alphabet) either yields an int or raises ValueError; None yields None"""
     is_none = vc.case("arg", ["none", "str"]) == "none"
     s = None if is_none else vc.sym_str("s")
     out = vc.call(PS, s)
@@ -75,11 +90,30 @@ def s_parse_size(vc):
         vc.ensure("none.returns_none", out.ok and isnone(out.result))
         return
     vc.ensure("total.only_value_error", out.ok or issubclass(out.raised_type(), ValueError))
+    vc.ensure("total.result_is_int", (not out.ok) or isa(out.result, int))
+
+
+@scenario("parse_size.grammar", functions=[PS])
+def s_parse_size(vc):
+    """exact grammar over the alphabet ALNUM (ASCII letters, digits, '.', ',', ':', '/'): there int(x) succeeds iff x is a
+    non-empty digit string (CPython fact, trusted: signs, '_', whitespace and non-ASCII digits are outside the alphabet)"""
+    s = vc.sym_str("s")
+    if vc.mode == "sym":
+        import z3
+        from pyvc import lib
+        vc.assume(SBool(z3.InRe(s.t, z3.Star(z3.Union(*[z3.Re(c) for c in ALNUM])))))
+        np = lib.uf("int_parsable_nondigit", z3.StringSort(), z3.BoolSort())
+        vc.assume(SBool(z3.Not(np(s.t))))
+        vc.assume(SBool(z3.Not(np(s[0:len_(s) - 1].t))))
+        vc.assume(SBool(z3.Not(np(s[:-1].t))))
+    else:
+        vc.assume(all(c in ALNUM for c in s))
+    out = vc.call(PS, s)
+    vc.ensure("total.only_value_error", out.ok or issubclass(out.raised_type(), ValueError))
     if vc.branch(_digits(vc, s)):
         vc.ensure("decimal.accepted", out.ok)
         if out.ok:
             vc.ensure("decimal.value", out.result == _to_int(vc, s))
-            vc.ensure("decimal.nonneg", out.result >= 0)
         return
     n = len_(s)
     head, last = s[0:n - 1], s[n - 1:n]
@@ -139,14 +173,13 @@ def setup_expected(vc):
         return v.lift(None if kind == "none" else E)
 
     vc.summary(EBS, ebs)
+    vc.summary(EBS_AT_USE, ebs)     # natively the name is looked up in HttpStream's module
     return kind, E, calls
 
 
 def conn_reply(vc, server2, fails, errmsg):
     """environment answer to GetHttpConnection: (connection, None) or (None, error)"""
-    if vc.mode == "sym":
-        return If(fails, vc.lift((None, errmsg)), vc.lift((server2, None)))
-    return (None, errmsg) if fails else (server2, None)
+    return (None, errmsg) if vc.branch(fails) else (server2, None)
 
 
 def check_abort(vc, tag, out, st, flow, client, server, request, early, error_seen_at_hook, pre_cs, pre_ss):
@@ -162,15 +195,15 @@ def check_abort(vc, tag, out, st, flow, client, server, request, early, error_se
     vc.ensure(tag + ".hooks_carry_flow", all(c.flow is flow for c in tr[:i + 1]))
     vc.ensure(tag + ".error_set_before_error_hook", error_seen_at_hook == [True])
     vc.ensure(tag + ".flow_error", not isnone(flow.error) and isa(flow.error, _cls("mitmproxy.flow:Error")))
-    vc.ensure(tag + ".client_gets_error", tr[i + 1].connection is client and vc.eq(tr[i + 1].event.code, ErrorCode.REQUEST_TOO_LARGE if request else ErrorCode.RESPONSE_TOO_LARGE))
+    vc.ensure(tag + ".client_gets_error", And(tr[i + 1].connection is client, vc.eq(tr[i + 1].event.code, ErrorCode.REQUEST_TOO_LARGE if request else ErrorCode.RESPONSE_TOO_LARGE)))
     vc.ensure(tag + ".error_status", tr[i + 1].event.code.http_status_code() == (413 if request else 502) if vc.mode == "native" else True)
     if not request:
-        vc.ensure(tag + ".server_stream_cancelled", tr[i + 2].connection is server and vc.eq(tr[i + 2].event.code, ErrorCode.RESPONSE_TOO_LARGE))
+        vc.ensure(tag + ".server_stream_cancelled", And(tr[i + 2].connection is server, vc.eq(tr[i + 2].event.code, ErrorCode.RESPONSE_TOO_LARGE)))
     vc.ensure(tag + ".not_live", vc.eq(flow.live, False))
     vc.ensure(tag + ".client_state_errored", state_name(vc, st.client_state) == "state_errored")
     vc.ensure(tag + ".server_state", state_name(vc, st.server_state) == (pre_ss if request else "state_errored"))
     vc.ensure(tag + ".returns_true", vc.eq(out.result, True))
-    vc.ensure(tag + ".stream_flag_untouched", vc.eq(flow.request.stream, False) and (request or vc.eq(flow.response.stream, False)))
+    vc.ensure(tag + ".stream_flag_untouched", And(vc.eq(flow.request.stream, False), request or vc.eq(flow.response.stream, False)))
 
 
 def _cls(ref):
@@ -236,7 +269,7 @@ def s_check_body_size(vc):
         vc.ensure(tag + ".returns_false", vc.eq(out.result, False))
         vc.ensure(tag + ".buffer_unchanged", buf_bytes(vc, mybuf) == (buf if late else b""))
         vc.ensure(tag + ".states_unchanged", state_name(vc, st.client_state) == pre_cs and state_name(vc, st.server_state) == pre_ss)
-        vc.ensure(tag + ".flow_unchanged", isnone(flow.error) and vc.eq(flow.live, True))
+        vc.ensure(tag + ".flow_unchanged", And(isnone(flow.error), vc.eq(flow.live, True)))
 
     if not size_known:
         unchanged("unknown_size")
@@ -257,13 +290,13 @@ def s_check_body_size(vc):
         if not late:
             vc.ensure("stream.early.no_output", k == [])
             vc.ensure("stream.early.states_unchanged", state_name(vc, st.client_state) == pre_cs and state_name(vc, st.server_state) == pre_ss)
-            vc.ensure("stream.early.flow_unchanged", isnone(flow.error) and vc.eq(flow.live, True))
+            vc.ensure("stream.early.flow_unchanged", And(isnone(flow.error), vc.eq(flow.live, True)))
             return
         kept = buf_bytes(vc, mybuf)
         if request:
             if vc.branch(fails):
                 vc.ensure("stream.late.connfail.nothing_to_server", not any(is_send(c, None, server) or is_send(c, None, server2) for c in tr))
-                vc.ensure("stream.late.connfail.error", not isnone(flow.error) and vc.eq(flow.live, False))
+                vc.ensure("stream.late.connfail.error", And(not isnone(flow.error), vc.eq(flow.live, False)))
                 vc.ensure("stream.late.connfail.error_hook_once", k.count("HttpErrorHook") == 1)
                 vc.ensure("stream.late.connfail.client_state", state_name(vc, st.client_state) == "state_errored")
                 vc.ensure("stream.late.connfail.buffer_released", len_(kept) == 0)
@@ -272,7 +305,7 @@ def s_check_body_size(vc):
             vc.ensure("stream.late.trace", k == exp)
             if k != exp:
                 return
-            vc.ensure("stream.late.headers", tr[1].connection is server2 and tr[1].event.request is flow.request and vc.eq(tr[1].event.end_stream, False))
+            vc.ensure("stream.late.headers", And(tr[1].connection is server2, tr[1].event.request is flow.request, vc.eq(tr[1].event.end_stream, False)))
             vc.ensure("stream.late.buffered_bytes_reemitted_once", And(tr[3].event.data == buf, tr[3].connection is server2))
             vc.ensure("stream.late.state", state_name(vc, st.client_state) == "state_stream_request_body" and state_name(vc, st.server_state) == pre_ss)
             vc.ensure("stream.late.server_conn_recorded", st.context.server is server2 and flow.server_conn is server2)
@@ -281,11 +314,11 @@ def s_check_body_size(vc):
             vc.ensure("stream.late.trace", k == exp)
             if k != exp:
                 return
-            vc.ensure("stream.late.headers", tr[0].connection is client and tr[0].event.response is flow.response and vc.eq(tr[0].event.end_stream, False))
+            vc.ensure("stream.late.headers", And(tr[0].connection is client, tr[0].event.response is flow.response, vc.eq(tr[0].event.end_stream, False)))
             vc.ensure("stream.late.buffered_bytes_reemitted_once", And(tr[2].event.data == buf, tr[2].connection is client))
             vc.ensure("stream.late.state", state_name(vc, st.server_state) == "state_stream_response_body" and state_name(vc, st.client_state) == pre_cs)
         vc.ensure("stream.late.kept_iff_store", kept == If(store, buf, b""))
-        vc.ensure("stream.late.flow_ok", isnone(flow.error) and vc.eq(flow.live, True))
+        vc.ensure("stream.late.flow_ok", And(isnone(flow.error), vc.eq(flow.live, True)))
         return
     unchanged("within_limits")
     vc.ensure("within_limits.not_streamed", vc.eq(msg.stream, False))
@@ -309,6 +342,11 @@ def s_consume_data(vc):
         vc.assume(len_(old) <= L)          # invariant of the buffering state (established by the previous event's postcondition)
     if thresh_set:
         vc.assume(len_(old) <= S)
+    # the buffering state is only entered after the early check on the head passed, and the framing headers are unchanged since
+    if kind == "int" and limit_set:
+        vc.assume(Or(E <= 0, E <= L))
+    if kind == "int" and thresh_set:
+        vc.assume(Or(E <= 0, E <= S))
     pre_cs, pre_ss = ("state_consume_request_body", "state_wait_for_response_headers") if request else ("state_done", "state_consume_response_body")
     st, flow, client, server = mk_stream(vc, pre_cs, pre_ss, response=None if request else mk_response(vc),
                                          reqbuf=buf if request else None, respbuf=None if request else buf,
@@ -345,7 +383,7 @@ def s_consume_data(vc):
         vc.ensure("nolimit.never_aborts", not aborted)
     if aborted:
         vc.ensure("abort.client_gets_error", any(is_send(c, "ResponseProtocolError", client) for c in out.trace))
-        vc.ensure("abort.errored", state_name(vc, st.client_state) == "state_errored" and vc.eq(flow.live, False) and not isnone(flow.error))
+        vc.ensure("abort.errored", And(state_name(vc, st.client_state) == "state_errored", vc.eq(flow.live, False), not isnone(flow.error)))
         vc.ensure("abort.body_not_forwarded", not any(is_send(c, "RequestData") or is_send(c, "ResponseData") or is_send(c, "RequestHeaders") or is_send(c, "ResponseHeaders") for c in out.trace))
         return
     if thresh_set:
@@ -354,7 +392,7 @@ def s_consume_data(vc):
         vc.ensure("nothreshold.keeps_buffering", not streaming)
     if streaming:
         sends = [c for c in out.trace if is_send(c, "RequestData" if request else "ResponseData")]
-        vc.ensure("switch.reemits_everything_once_in_order", len(sends) == 1 and sends[0].event.data == old + data)
+        vc.ensure("switch.reemits_everything_once_in_order", And(len(sends) == 1, sends[0].event.data == old + data if sends else False))
         vc.ensure("switch.buffer_released", len_(held) == 0)
     else:
         vc.ensure("buffered.exactly_appended", held == old + data)
@@ -443,7 +481,7 @@ def s_stream_data(vc):
     tr = out.trace
     expected = [data] if mode is True else (results[0] if results else None)
     if mode is not True:
-        vc.ensure("transform.called_once_with_received_bytes", len(calls) == 1 and calls[0] == data)
+        vc.ensure("transform.called_once_with_received_bytes", And(len(calls) == 1, calls[0] == data if calls else False))
         if len(calls) != 1:
             return
     dst = server if request else client
@@ -456,7 +494,7 @@ def s_stream_data(vc):
     mybuf = st.request_body_buf if request else st.response_body_buf
     vc.ensure("kept_iff_store", buf_bytes(vc, mybuf) == If(store, kept0 + concat_all(expected, b""), kept0))
     vc.ensure("state_unchanged", state_name(vc, st.client_state) == pre_cs and state_name(vc, st.server_state) == pre_ss)
-    vc.ensure("flow_unaffected", isnone(flow.error) and vc.eq(flow.live, True))
+    vc.ensure("flow_unaffected", And(isnone(flow.error), vc.eq(flow.live, True)))
     msg = flow.request if request else flow.response
     vc.ensure("content_not_set_yet", isnone(msg.data.content))
 
@@ -485,7 +523,7 @@ def s_stream_eom(vc):
     dst = server if request else client
     flush = [] if mode is True else (results[0] if results else [])
     if mode is not True:
-        vc.ensure("transform.flushed_once_with_empty", len(calls) == 1 and calls[0] == b"")
+        vc.ensure("transform.flushed_once_with_empty", And(len(calls) == 1, calls[0] == b"" if calls else False))
     dk = "RequestData" if request else "ResponseData"
     hook = "HttpRequestHook" if request else "HttpResponseHook"
     vc.ensure("hook_once", k.count(hook) == 1)
@@ -493,7 +531,7 @@ def s_stream_eom(vc):
         return
     hi = k.index(hook)
     datas = [c for c in tr if is_send(c, dk)]
-    if mode == "bytes":
+    if mode == "bytes" and flush:
         # a bytes result b"" means "nothing to flush"
         r = flush[0]
         if vc.branch(len_(r) == 0):
@@ -507,7 +545,7 @@ def s_stream_eom(vc):
     mybuf = st.request_body_buf if request else st.response_body_buf
     total = kept0 + concat_all(flush, b"")
     if vc.branch(store):
-        vc.ensure("store.content_is_all_relayed_bytes", not isnone(msg.data.content) and msg.data.content == total)
+        vc.ensure("store.content_is_all_relayed_bytes", And(not isnone(msg.data.content), msg.data.content == total if not isnone(msg.data.content) else False))
     else:
         vc.ensure("nostore.flow_keeps_nothing", isnone(msg.data.content))
         vc.ensure("nostore.buffer_untouched", buf_bytes(vc, mybuf) == kept0)
@@ -516,3 +554,229 @@ def s_stream_eom(vc):
     eom = [c for c in tr if is_send(c, "RequestEndOfMessage" if request else "ResponseEndOfMessage", dst)]
     vc.ensure("eom.forwarded_once_after_data", len(eom) == 1 and all(tr.index(c) < tr.index(eom[0]) for c in datas))
     vc.ensure("nothing_else_to_peer", not any(is_send(c, "RequestHeaders") or is_send(c, "ResponseHeaders") for c in tr))
+
+
+# =============================================================================================
+# T2 (bounded): the real HttpLayer (HTTP/1) driven sans-io around the thresholds, against an executable form of the statement
+
+MARK = b"ABCDEFGHIJKLMNOPQRSTUVWXYZ"
+ADDONS = ["none", "stream_true", "upper", "split2", "drop_first", "list_dup"]
+
+
+def _transform(addon):
+    state = {"n": 0}
+    if addon == "upper":
+        return lambda d: d.lower()
+    if addon == "split2":
+        return lambda d: [d[:1], d[1:]]
+    if addon == "list_dup":
+        return lambda d: [d, b"-", d] if d else []
+    if addon == "drop_first":
+        def f(d):
+            state["n"] += 1
+            return b"" if state["n"] == 1 else d
+        return f
+    return None
+
+
+def _spec(direction, framing, parts, L, S, addon):
+    """expected outcome by the statement: ('abort', when, held_bound) | ('relay', expected_chunks, streamed, emits_empty)"""
+    n = sum(len(p) for p in parts)
+    known = n if framing == "cl" else None
+    stream = None
+    if known is not None and known > 0:
+        if L is not None and known > L:
+            return dict(kind="abort", when="early", bound=0)
+        if S is not None and known > S:
+            stream = True
+    has_body_phase = not (framing == "cl" and n == 0)
+    if addon != "none":
+        stream = True if addon == "stream_true" else _transform(addon)
+    if stream and has_body_phase:
+        out, empty = [], False
+        for p in parts:
+            r = stream(p) if callable(stream) else p
+            r = [r] if isinstance(r, bytes) else list(r)
+            empty = empty or any(len(x) == 0 for x in r)
+            out.extend(r)
+        if callable(stream):
+            r = stream(b"")
+            r = [] if r == b"" else ([r] if isinstance(r, bytes) else list(r))
+            empty = empty or any(len(x) == 0 for x in r)
+            out.extend(r)
+        return dict(kind="relay", chunks=out, streamed=True, emits_empty=empty, bound=0)
+    cum = 0
+    bound = 0
+    for i, p in enumerate(parts):
+        cum += len(p)
+        if cum > 0 and L is not None and cum > L:
+            return dict(kind="abort", when="late", bound=L + len(p))
+        if cum > 0 and S is not None and cum > S:
+            return dict(kind="relay", chunks=[b"".join(parts[:i + 1])] + [q for q in parts[i + 1:]], streamed=True, emits_empty=False, bound=S + len(p))
+        bound = max(bound, cum)
+    return dict(kind="relay", chunks=[b"".join(parts)], streamed=False, emits_empty=False, bound=bound)
+
+
+def _compositions(body, maxparts):
+    n = len(body)
+    if n == 0:
+        yield []
+        return
+    import itertools
+    for k in range(1, min(maxparts, n) + 1):
+        for cuts in itertools.combinations(range(1, n), k - 1):
+            idx = (0,) + cuts + (n,)
+            yield [body[idx[i]:idx[i + 1]] for i in range(k)]
+
+
+def _run_case(direction, framing, parts, limit, thresh, store, addon, opts_cache):
+    from props.http_sansio import Run, Ref, buffer_watermark, chunked
+    body = b"".join(parts)
+    key = (limit, thresh, store)
+    fn = _transform(addon)
+
+    def policy(name, flow, run):
+        hook = "requestheaders" if direction == "request" else "responseheaders"
+        if name == hook and addon != "none":
+            msg = flow.request if direction == "request" else flow.response
+            msg.stream = True if addon == "stream_true" else fn
+
+    with buffer_watermark() as marks:
+        r = Run(policy, body_size_limit=limit, stream_large_bodies=thresh, store_streamed_bodies=store)
+        if direction == "request":
+            head = b"POST http://example.com/ HTTP/1.1\r\nHost: example.com\r\n" + (b"Content-Length: %d\r\n\r\n" % len(body) if framing == "cl" else b"Transfer-Encoding: chunked\r\n\r\n")
+            r.feed_client(head)
+            for p in parts:
+                r.feed_client(p if framing == "cl" else b"%x\r\n%s\r\n" % (len(p), p))
+            if framing == "chunked":
+                r.feed_client(b"0\r\n\r\n")
+            if r.servers:
+                r.feed_server(b"HTTP/1.1 204 No Content\r\n\r\n")   # no response body: only request bytes are ever buffered
+        else:
+            r.feed_client(b"GET http://example.com/ HTTP/1.1\r\nHost: example.com\r\n\r\n")
+            head = b"HTTP/1.1 200 OK\r\n" + (b"Content-Length: %d\r\n\r\n" % len(body) if framing == "cl" else b"Transfer-Encoding: chunked\r\n\r\n")
+            r.feed_server(head)
+            for p in parts:
+                r.feed_server(p if framing == "cl" else b"%x\r\n%s\r\n" % (len(p), p))
+            if framing == "chunked":
+                r.feed_server(b"0\r\n\r\n")
+    return r, marks
+
+
+def bounded(tier, seed):
+    import random
+    from props.http_sansio import Ref
+    b = Bounded()
+    b.rule = ("HTTP/1 exchange through the real HttpLayer, body of n marker bytes in the given direction, framed by Content-Length or chunked, delivered as every "
+              "composition of n into <= k segments/chunks, for option combinations (body_size_limit, stream_large_bodies, store_streamed_bodies) and addon "
+              "stream policies {none, stream=True, bytes->bytes callable, list-returning callables, callable returning b'' once}; n ranges over 0,1 and L-1..L+1, "
+              "S-1..S+1; observed: buffer length after every append, bytes written to the peer (parsed by an independent HTTP/1 reader), hooks, flow.error, "
+              "stored content. distinct = distinct (direction, framing, options, addon, composition); non-trivial = a limit/threshold is set or an addon streams")
+    maxparts = 3 if tier == "quick" else 4
+    configs = [(None, None), ("5", None), (None, "3"), ("5", "3"), ("3", "5"), ("1k", None)] if tier == "quick" else [(None, None), ("5", None), (None, "3"), ("5", "3"), ("3", "5"), ("4", "4"), ("1k", "1k"), ("0", None)]
+    b.bound = f"bodies <= 1026 bytes (<= 7 bytes for exhaustive compositions), <= {maxparts} chunks, limits in {configs}"
+    rnd = random.Random(seed)
+    cases = []
+    for direction in ("request", "response"):
+        for framing in ("cl", "chunked"):
+            for limit, thresh in configs:
+                vals = [human_size(x) for x in (limit, thresh) if x is not None]
+                sizes = {0, 1}
+                for v in vals:
+                    sizes.update({v - 1, v, v + 1})
+                sizes = sorted(x for x in sizes if x >= 0) or [0, 1, 4]
+                for n in sizes:
+                    body = (MARK * (n // len(MARK) + 1))[:n]
+                    comps = list(_compositions(body, maxparts)) if n <= 7 else [[body], [body[:1], body[1:]], [body[:-1], body[-1:]], [body[:n // 2], body[n // 2:]]]
+                    for parts in comps:
+                        for store in (False, True):
+                            for addon in ADDONS:
+                                cases.append((direction, framing, parts, limit, thresh, store, addon))
+    if tier == "quick":
+        rnd.shuffle(cases)
+        cases = cases[:9000]
+    for direction, framing, parts, limit, thresh, store, addon in cases:
+        L = human_size(limit) if limit is not None else None
+        S = human_size(thresh) if thresh is not None else None
+        inp = dict(direction=direction, framing=framing, parts=[p.decode() for p in parts], body_size_limit=limit, stream_large_bodies=thresh,
+                   store_streamed_bodies=store, addon=addon)
+        exp = _spec(direction, framing, parts, L, S, addon)
+        inp["emits_empty_chunk"] = bool(exp.get("emits_empty"))
+        b.case(repr(sorted(inp.items())), nontrivial=(limit is not None or thresh is not None or addon != "none"))
+        try:
+            r, marks = _run_case(direction, framing, parts, limit, thresh, store, addon, None)
+        except Exception as e:
+            b.fail("c07.total", inp, f"raised {type(e).__name__}: {e}")
+            continue
+        body = b"".join(parts)
+        flow = r.flows[0] if r.flows else None
+        if flow is None:
+            b.fail("c07.flow_seen", inp, "no hook fired")
+            continue
+        hooks = r.hooks_of(flow)
+        peer_bytes = r.to_all_servers() if direction == "request" else r.to_client()
+        held = max([m[0] for m in marks], default=0)
+        msg = flow.request if direction == "request" else flow.response
+        if exp["kind"] == "abort":
+            if "error" not in hooks or flow.error is None or flow.live:
+                b.fail("c07.abort.flow_ends_with_error", inp, f"hooks={hooks} error={flow.error} live={flow.live}")
+            if "response" in hooks:
+                b.fail("c07.abort.no_response_hook", inp, f"hooks={hooks}")
+            cm = Ref.read_message(r.to_client(), False)
+            want = b"413" if direction == "request" else b"502"
+            if cm is None or want not in cm[0]:
+                b.fail("c07.abort.client_receives_error", inp, f"client got {r.to_client()[:80]!r}")
+            leaked = [bytes([c]) for c in set(body) if bytes([c]) in (peer_bytes if direction == "request" else r.to_client().split(b"\r\n\r\n", 1)[0] + b"".join(r.to_client().split(b"\r\n\r\n")[2:]))]
+            if direction == "request" and peer_bytes:
+                b.fail("c07.abort.oversized_body_not_forwarded", inp, f"server got {peer_bytes[:80]!r}")
+            if direction == "response" and cm is not None and b"200" in cm[0]:
+                b.fail("c07.abort.oversized_body_not_forwarded", inp, f"client got {r.to_client()[:80]!r}")
+            if held > exp["bound"]:
+                b.fail("c07.memory.limit_plus_one_chunk", inp, f"held {held} > {exp['bound']}")
+            continue
+        # relayed (buffered or streamed)
+        if "error" in hooks or flow.error is not None:
+            b.fail("c07.relay.no_error", inp, f"hooks={hooks} error={flow.error}")
+            continue
+        expected = b"".join(exp["chunks"])
+        m = Ref.read_message(peer_bytes, direction == "request")
+        if m is None:
+            b.fail("c07.relay.peer_gets_message", inp, f"peer got {peer_bytes[:80]!r}")
+            continue
+        start, hs, got_body, complete, rest = m
+        raw_after_head = peer_bytes.split(b"\r\n\r\n", 1)[1]
+        if direction == "request":
+            # the scripted server answered; only the request bytes are of interest
+            pass
+        if framing == "cl":
+            ok = raw_after_head == expected
+        else:
+            ok = got_body == expected and complete and rest == b""
+        if not ok:
+            # (the class 'transformation emits an empty chunk into a chunked HTTP/1 message' has its own check name: KF-C07-1)
+            b.fail("c07.relay.peer_receives_exactly_transformed_bytes" + ("[empty chunk, chunked]" if exp["emits_empty"] and framing == "chunked" else ""), inp, f"expected {expected!r}, peer stream after head {raw_after_head[:120]!r}")
+        if exp["streamed"]:
+            lim = exp["bound"] if not store else None
+            if lim is not None and held > lim:
+                b.fail("c07.stream.not_buffered", inp, f"held {held} > {lim}")
+            kept = msg.raw_content
+            if store and kept != expected:
+                b.fail("c07.stream.kept_iff_store", inp, f"store on, flow keeps {kept!r}, relayed {expected!r}")
+            if not store and kept is not None:
+                b.fail("c07.stream.kept_iff_store", inp, f"store off, flow keeps {kept!r}")
+        else:
+            if msg.raw_content != body:
+                b.fail("c07.buffered.content", inp, f"flow content {msg.raw_content!r}")
+            if held > exp["bound"]:
+                b.fail("c07.memory.limit_plus_one_chunk", inp, f"held {held} > {exp['bound']}")
+    return b
+
+
+def human_size(s):
+    """independent reading of the size syntax (decimal with optional b/k/m/g/t suffix, powers of 1024)"""
+    if s is None:
+        return None
+    mult = {"b": 1, "k": 1024, "m": 1024 ** 2, "g": 1024 ** 3, "t": 1024 ** 4}
+    if s and s[-1] in mult and s[:-1].isdigit():
+        return int(s[:-1]) * mult[s[-1]]
+    return int(s)
